@@ -141,3 +141,58 @@ package csblob
 //@   nopanic
 //@   requires s != nil && forall(k, 0, len(s.Directories), s.Directories[k] != nil)
 //@   modifies nothing
+//@
+//@ func (*reqDumper).getInt32
+//@   property C11
+//@   nopanic
+//@   requires d != nil
+//@
+//@ func (*reqDumper).op
+//@   property C11
+//@   nopanic
+//@   requires d != nil
+//@
+//@ func (*reqDumper).certSlot
+//@   property C11
+//@   nopanic
+//@   requires d != nil
+//@
+//@ func (*reqDumper).match
+//@   property C11
+//@   nopanic
+//@   requires d != nil
+//@
+//@ func (*reqDumper).dataExt
+//@   property C11
+//@   nopanic
+//@   requires d != nil
+//@
+//@ func (*reqDumper).data
+//@   property C11
+//@   nopanic
+//@   requires d != nil
+//@
+//@ func (*reqDumper).dotString
+//@   property C11
+//@   nopanic
+//@   requires d != nil
+//@
+//@ func (*reqDumper).hashData
+//@   property C11
+//@   nopanic
+//@   requires d != nil
+//@
+//@ func (*reqDumper).oidData
+//@   property C11
+//@   nopanic
+//@   requires d != nil
+//@
+//@ func (*reqDumper).timestamp
+//@   property C11
+//@   nopanic
+//@   requires d != nil
+//@
+//@ func (*Requirement).Format
+//@   property C11
+//@   nopanic
+//@   requires r != nil
